@@ -92,18 +92,19 @@ package keeper
 //@   requires n >= 0 && pos >= n
 //@   ensures sumDist(store(ptrs, pos, x), amt, d, n) == sumDist(ptrs, amt, d, n)
 //@   prop C18
-//@ pred sharesUsable(sd) = !sd.Destinations.BurnShare.IsNil()
-//@   && (forall k: int :: {sd.Destinations.Shares[k]} 0 <= k && k < len(sd.Destinations.Shares) ==> sd.Destinations.Shares[k] != nil && !sd.Destinations.Shares[k].Share.IsNil())
+//@ pred wsumOf(x, dst, n) = wsumShares(x, elemRow(dst.Shares), heapOf("types.DestinationShare", "Share"), off(dst.Shares), n)
+//@ pred wsumBoundOf(x, dst, i, b) = wsumBound(x, elemRow(dst.Shares), heapOf("types.DestinationShare", "Share"), off(dst.Shares), i, len(dst.Shares), b)
 //@ pred distAllocated(ds) = forall k: int :: {ds[k]} 0 <= k && k < len(ds) ==> ds[k] != nil && allocated(ds[k])
 
 //@ // One sub-distributor's step: every coin of the inflow is booked to exactly one state (books), is reported by exactly one
 //@ // event (events), and the burn event carries the truncated burn share of the inflow.
 //@ func (k Keeper) StartDistributionProcess(ctx, states, coinsToDistributeDec, subDistributor) (localRemains, distributions, burn)
-//@   requires states != nil && off(*states) == 0 && statesHaveAccounts(*states) && sharesUsable(subDistributor)
+//@   requires states != nil && off(*states) == 0 && statesHaveAccounts(*states) && destinationsValid(subDistributor.Destinations)
 //@   requires allPositive(coinsToDistributeDec)
 //@   uses forall row: [int][str]int, pos: int, v: [str]int, d: str, n: int :: {sumRem(store(row, pos, v), d, n)} sumRemStore(row, d, n, pos, v)
 //@   uses forall ptrs: [int]int, amt: [int][str]int, d: str, n: int, r: int, v: [str]int :: {sumDist(ptrs, store(amt, r, v), d, n)} sumDistFrameAmt(ptrs, amt, d, n, r, v)
 //@   uses forall ptrs: [int]int, amt: [int][str]int, d: str, n: int, pos: int, x: int :: {sumDist(store(ptrs, pos, x), amt, d, n)} sumDistFramePtrs(ptrs, amt, d, n, pos, x)
+//@   uses forall d: str :: {coinsToDistributeDec[d]} wsumBoundOf(coinsToDistributeDec[d], subDistributor.Destinations, len(subDistributor.Destinations.Shares), subDistributor.Destinations.BurnShare)
 //@   ensures localRemains != nil && off(*localRemains) == 0 && statesHaveAccounts(*localRemains) && len(*localRemains) >= old(len(*states))
 //@   ensures [books] forall d: str :: subDistributor.Destinations.PrimaryShare.Type != "MAIN" ==>
 //@       sumRem(fieldRow(*localRemains, "Remains"), d, len(*localRemains)) == old(sumRem(fieldRow(*states, "Remains"), d, len(*states))) + coinsToDistributeDec[d]
@@ -114,9 +115,13 @@ package keeper
 //@   prop C03 C04 C18 C01
 //@ loop Keeper.StartDistributionProcess#1
 //@   invariant localRemains != nil && off(*localRemains) == 0 && statesHaveAccounts(*localRemains) && len(*localRemains) >= old(len(*states))
-//@   invariant distAllocated(distributions) && off(distributions) == 0
+//@   invariant distAllocated(distributions) && off(distributions) == 0 && 0 <= \i && \i <= len(subDistributor.Destinations.Shares)
 //@   invariant forall d: str :: sumRem(fieldRow(*localRemains, "Remains"), d, len(*localRemains)) + defaultShare[d] == old(sumRem(fieldRow(*states, "Remains"), d, len(*states))) + coinsToDistributeDec[d]
 //@   invariant forall d: str :: sumDist(elemRow(distributions), heapOf("types.Distribution", "Amount"), d, len(distributions)) + defaultShare[d] == coinsToDistributeDec[d]
+//@   // what is left for the primary share is at least the inflow times (1 - sum of the shares handled so far): Sub never goes negative
+//@   invariant forall d: str :: {defaultShare[d]} defaultShare[d] * P + wsumOf(coinsToDistributeDec[d], subDistributor.Destinations, \i) >= coinsToDistributeDec[d] * P
+//@   uses forall d: str :: {coinsToDistributeDec[d]} wsumBoundOf(coinsToDistributeDec[d], subDistributor.Destinations, \i + 1, 0)
+//@   uses forall d: str :: {coinsToDistributeDec[d]} wsumStep(coinsToDistributeDec[d], elemRow(subDistributor.Destinations.Shares), heapOf("types.DestinationShare", "Share"), off(subDistributor.Destinations.Shares), \i + 1)
 
 //@ // ---- C13: only governance changes the parameters; what is stored was validated; a rejected update changes nothing ----
 //@ spec func dpKey() str = global("types.ParamsKey")
